@@ -87,6 +87,10 @@ def strategy():
                 tour.append(tour[0])
             for c in tour:
                 queries(c, draw(st.integers(1, 4)))
+                if c in contigs and draw(st.integers(0, 3)) == 0:
+                    # a read lying over the sites of this contig is resolved (getAllele), then more point lookups follow
+                    ops.append(['ga', c, draw(st.integers(0, 10 ** 6))])
+                    queries(c, draw(st.integers(1, 3)))
         return {'contigs': contigs, 'samples': samples, 'records': recs, 'select': sel, 'ignore': ign, 'ops': ops}
     return case()
 
@@ -230,6 +234,47 @@ def eval_case(case):
                 visited = []
                 continue
             if cur is None:
+                continue
+            if op[0] == 'ga':
+                _, c, sd = op
+                hdr = pysam.AlignmentHeader.from_dict({'HD': {'VN': '1.6'}, 'SQ': [{'SN': x, 'LN': 1000} for x in case['contigs']]})
+                rd = pysam.AlignedSegment(hdr)
+                rd.query_name = 'resolve_me'
+                bases = []
+                exp_ga, exact = set(), True
+                for p in range(0, 60):
+                    site = model.get((c, p))
+                    b = 'A'
+                    if site and site['carriers']:
+                        opts = sorted(site['carriers'])
+                        b = opts[(sd + p) % len(opts)]
+                        if site['kind'] in ('clean', 'missing'):
+                            if len(site['carriers'][b]) == 1:
+                                exp_ga |= site['carriers'][b]
+                        elif site['kind'] == 'unclean':
+                            exact = False
+                    bases.append(b)
+                rd.query_sequence = ''.join(bases)
+                rd.flag = 0
+                rd.reference_id = hdr.get_tid(c)
+                rd.reference_start = 0
+                rd.mapping_quality = 60
+                rd.cigarstring = '60M'
+                with contextlib.redirect_stdout(io.StringIO()):
+                    try:
+                        at_mod.gzip = real_gzip
+                        want_g = set(ref.getAllele([rd]))
+                        at_mod.gzip = session_gzip
+                        got_g = set(cur.getAllele([rd]))
+                    except Exception as e:
+                        out.bad('exception:getAllele:%s:%s' % (cur_mode, type(e).__name__), repr(e))
+                        continue
+                visited.append(c)
+                out.label('read resolved between point lookups')
+                if got_g != want_g:
+                    out.bad('mode-disagreement:getAllele:%s' % cur_mode, 'read over %s: %s gives %r, eager reference %r' % (c, cur_mode, got_g, want_g))
+                if exact and want_g != exp_ga:
+                    out.bad('reference-vs-vcf:getAllele', 'read over %s with bases %r resolves to %r, the VCF says %r' % (c, ''.join(bases), want_g, exp_ga))
                 continue
             _, c, p0, base = op
             with contextlib.redirect_stdout(io.StringIO()):
